@@ -54,6 +54,13 @@ class Scripted(Runnable):
         if k == "noop":
             self.nothing_happened()
             return
+        if k in ("noop_raise", "noop_backoff"):
+            # "found nothing to do" and then the call fails after all: a failure like any other; the no-op note
+            # belongs to THIS call and must not be charged to a later successful one
+            self.nothing_happened()
+            if k == "noop_raise":
+                raise ValueError("scripted")
+            self.backoff()
         if k == "backoff":
             self.backoff()
         if k == "raise":
@@ -71,7 +78,8 @@ def gen(d, tier):
     mult = d.choice((1.0, 1.5, 2.0, 3.0))
     sleep = d.choice((0, 0.001, 0.25))
     n = d.int(2, 14 if tier == "quick" else 40)
-    script = [d.weighted((("ok", 3), ("noop", 1), ("backoff", 3), ("raise", 2), ("base", 1))) for _ in range(n)]
+    script = [d.weighted((("ok", 3), ("noop", 1), ("backoff", 3), ("raise", 2), ("base", 1), ("noop_raise", 1), ("noop_backoff", 1)))
+              for _ in range(n)]
     return {"cfg": {"min": mn, "max": mx, "mult": mult, "sleep": sleep}, "acts": script}
 
 
@@ -94,7 +102,7 @@ def run(trace):
     nontrivial = False
     for idx, kind in enumerate(script[:-1]):
         wait = r.sleeps[idx]
-        if kind in ("backoff", "raise", "base"):
+        if kind in ("backoff", "raise", "base", "noop_raise", "noop_backoff"):
             k += 1
             if not tainted:
                 want = min(c["max"], c["min"] * c["mult"] ** (k - 1))
